@@ -266,3 +266,27 @@ def formulas(max_terms=4, max_factors=3, literals=True, **kw):
         return {"intercept": draw(st.booleans()), "terms": normalize_terms(terms)}
 
     return strat()
+
+
+def rename_col(obj, old, new):
+    """Rename a data column throughout a case (frame cases, formula cases, mutations); returns a deep copy."""
+    import copy
+
+    obj = copy.deepcopy(obj)
+
+    def walk(o):
+        if isinstance(o, dict):
+            if "cols" in o and isinstance(o["cols"], dict) and old in o["cols"]:
+                o["cols"] = {(new if k == old else k): v for k, v in o["cols"].items()}
+            if o.get("col") == old:
+                o["col"] = new
+            if isinstance(o.get("cols"), list):
+                o["cols"] = [new if c == old else c for c in o["cols"]]
+            for v in o.values():
+                walk(v)
+        elif isinstance(o, list):
+            for v in o:
+                walk(v)
+
+    walk(obj)
+    return obj
